@@ -452,6 +452,7 @@ fn soup_source(rng: &mut Rng, words: &[String]) -> String {
                 let mut f = Features::all();
                 f.errors = 30;
                 f.emit = true;
+                f.immediates = true;
                 let mut g = Gen::new(rng, f, GenEnv::default(), "c");
                 let k = 2 + g.rng.below(12);
                 let (s, _) = g.source(k, &[]);
@@ -469,8 +470,18 @@ fn soup_source(rng: &mut Rng, words: &[String]) -> String {
 
 fn gen_source(rng: &mut Rng, words: &[String]) -> String {
     match rng.below(10) {
-        0..=5 => sweep_source(rng, words),
-        6..=8 => soup_source(rng, words),
+        0..=4 => sweep_source(rng, words),
+        5..=7 => soup_source(rng, words),
+        8 => {
+            // a whole generated program: deep multi-step sequences (orphan slices then appends,
+            // nested inputs, user immediates, every read and pack word) that a token soup rarely forms
+            let mut f = Features::swarm(rng);
+            f.errors = *rng.pick(&[0, 30]);
+            f.immediates = rng.chance(1, 2);
+            let mut g = Gen::new(rng, f, GenEnv::default(), "g");
+            let k = 4 + g.rng.below(40);
+            g.source(k, &[]).0
+        }
         _ => (*rng.pick(&[
             "begin 1 repeat",
             "begin [ 1 2 3 ] unbox repeat",
